@@ -270,7 +270,8 @@ def envelope(r, etype, content, fmt, state_key=None, redacts=None):
         if fmt == "full":
             ev["room_id"] = r.choice(ROOMS)
         if r.random() < 0.5:
-            ev["unsigned"] = build(r, {}, {"age": I(0, 10 ** 6), "transaction_id": S("txn1")})
+            # (the age may be negative when server clocks disagree - the spec says so)
+            ev["unsigned"] = build(r, {}, {"age": I(-10 ** 6, 10 ** 6), "transaction_id": S("txn1")})
         if state_key is not None:
             ev["state_key"] = state_key
         if redacts is not None:
@@ -294,6 +295,8 @@ def redaction_event(r, fmt, target):
         ev["content"]["reason"] = "spam"
     if r.random() < 0.5:
         ev["content"]["redacts"] = target
+    if r.random() < 0.4:
+        ev["unsigned"] = {"age": I(-10 ** 6, 10 ** 6)(r)}
     return ev
 
 
